@@ -67,3 +67,30 @@ def validate(module, cfg, specdir, records, workfile, timeout=900, max_rejects=8
         if len(rejects) >= max_rejects:
             break
     return len(execs), rejects, results
+
+
+def validate_independent(module, cfg, specdir, recs, workfile, tag=None, timeout=2400, heap="6g", max_rejects=5, props=None):
+    """for (E)-style traces whose records are independent calls: on a rejection the offending record is dropped and the
+    validation continues with the records after it; returns (n_accepted, rejected_records, tlc_states)"""
+    rejects, cur, states = [], list(recs), 0
+    while cur:
+        write_ndjson(workfile, cur)
+        r = tlc(module, cfg, specdir, env={"TRACE": workfile}, workers=1, timeout=timeout, tag=tag, heap=heap, props=props)
+        states += r.distinct
+        if r.rc == 124:
+            raise CheckError("TLC timeout validating %s" % workfile)
+        if r.ok:
+            break
+        m = re.search(r'"REJECTED_AT", (\d+)', r.out)
+        if not m:
+            raise CheckError("TLC failed on %s:\n%s" % (workfile, r.out[-3000:]))
+        k = int(m.group(1))
+        rejects.append(cur[k - 1])
+        cur = cur[k:]
+        if len(rejects) >= max_rejects:
+            break
+    try:
+        os.remove(workfile)
+    except OSError:
+        pass
+    return len(recs) - len(rejects), rejects, states
